@@ -306,7 +306,7 @@ def model_search(names, tier='quick', deadline_s=240):
         if time.time() - t0 > deadline_s or all(n in found for n in names):
             break
         fr = verify.verify_function(chk, 'VizierServicer.SuggestTrials[bounded %d trials, %d ops]' % (nt, no), make_entry(nt, no), post,
-                                    witness_terms=None, on_violation=on_violation, timeout_ms=20000, expect_paths=1, workers=12,
+                                    witness_terms=None, on_violation=on_violation, timeout_ms=5000, expect_paths=1, workers=12,
                                     only=lambda n: False, stop_at=t0 + deadline_s)
         for n, insts in fr.by_name.items():
             if n in found and found[n][2]:
